@@ -15,6 +15,10 @@ TRANSPARENT_WRAPPERS = {"cascade.low.tracing.timer"}
 NORETURN = {"cascade.low.func.assert_never", "cascade.shm.func.assert_never"}
 
 
+OPERATOR_FUNCS = {"operator.add": "Add", "operator.sub": "Sub", "operator.mul": "Mult", "operator.truediv": "Div", "operator.pow": "Pow",
+                  "operator.floordiv": "FloorDiv", "operator.mod": "Mod", "operator.and_": "BitAnd", "operator.or_": "BitOr"}
+
+
 class CallMixin:
     # ------------------------------------------------------------------ types
     def ann_classes(self, module, ann) -> set[str]:
@@ -273,6 +277,8 @@ class CallMixin:
             return self.call_value(fv.fn, None, list(fv.args) + list(args), {**fv.kwargs, **kwargs}, node, fr)
         if qual == "typing.cast" and len(args) == 2:
             return args[1]
+        if qual in OPERATOR_FUNCS and len(args) == 2 and not kwargs:
+            return self.binop(OPERATOR_FUNCS[qual], args[0], args[1], node)
         if qual in ("dataclasses.replace", "copy.copy") and args and isinstance(args[0], Obj) and (qual == "copy.copy" or args[0].cls in self.repo.classes):
             o = args[0]
             n = Obj(o.cls, dict(o.fields), o.args, o.kwargs, frozen=o.frozen)
@@ -362,6 +368,12 @@ class CallMixin:
         argv = list(args)
         if self_value is not None:
             argv = [self_value] + argv
+        star_tail = None
+        if argv and isinstance(argv[-1], Star) and not argv[-1].double and a.vararg and len(argv) - 1 == len(pos) \
+                and not any(isinstance(x, Star) for x in argv[:-1]):
+            # f(p1, ..., pn, *rest) into def f(p1, ..., pn, *args): the tail is forwarded unchanged
+            star_tail = argv[-1].value
+            argv = argv[:-1]
         if any(isinstance(x, Star) for x in argv):
             return App(fi.qual, args, kwargs, uid=self.next_uid(), fname=fi.qual)
         kw = dict(kwargs)
@@ -378,7 +390,10 @@ class CallMixin:
                     v = Sym(f"{fi.qual}:{p}")
             nf.locals[p] = Cell(v, v if isinstance(v, Term) else None)
         if a.vararg:
-            nf.locals[a.vararg.arg] = Cell(tuple(argv[len(pos):]))
+            if star_tail is not None:
+                nf.locals[a.vararg.arg] = Cell(star_tail, star_tail if isinstance(star_tail, Term) else None)
+            else:
+                nf.locals[a.vararg.arg] = Cell(tuple(argv[len(pos):]))
         for k, d in zip(a.kwonlyargs, a.kw_defaults):
             if k.arg in kw:
                 v = kw.pop(k.arg)
@@ -388,7 +403,11 @@ class CallMixin:
                 v = Sym(f"{fi.qual}:{k.arg}")
             nf.locals[k.arg] = Cell(v, v if isinstance(v, Term) else None)
         if a.kwarg:
-            nf.locals[a.kwarg.arg] = Cell({k: v for k, v in kw.items() if not k.startswith("**")})
+            dstar = [k for k in kw if k.startswith("**")]
+            if len(dstar) == 1 and len(kw) == 1 and isinstance(kw[dstar[0]], Term):
+                nf.locals[a.kwarg.arg] = Cell(kw[dstar[0]], kw[dstar[0]])  # f(**kwargs) into def f(**kwargs): forwarded unchanged
+            else:
+                nf.locals[a.kwarg.arg] = Cell({k: v for k, v in kw.items() if not k.startswith("**")})
         self.effect("enter", node, nf, qual=fi.qual)
         if fi.is_generator:
             nf.gen_acc = []
@@ -599,6 +618,12 @@ class CallMixin:
                 return self.raise_implicit("builtins." + type(e).__name__, node, fr)
             except Exception:
                 return sym()
+        if name in ("str", "repr") and isinstance(a0, Obj) and a0.cls in self.repo.classes and a0.fields:
+            # the class's own __str__/__repr__ decides what the text is (and whether it is injective)
+            for mname in (("__str__", "__repr__") if name == "str" else ("__repr__",)):
+                mfi = self.repo.find_method(a0.cls, mname)
+                if mfi is not None:
+                    return self.call_function(mfi, [], {}, node, fr, self_value=a0)
         if name in ("str", "repr") and isinstance(a0, (Atom, Obj)):
             return Sym(f"{name}({vkey(a0)})")
         if name == "type" and len(args) == 1:
